@@ -641,16 +641,19 @@ macro_rules! wrap_impl_sint {
     ($($T:ty)+) => {
         $(
             impl Wrap for $T {
-                // https://stackoverflow.com/a/707426
-                fn wrapped_between(mut self, lower: Self, upper: Self) -> Self {
+                fn wrapped_between(self, lower: Self, upper: Self) -> Self {
                     assert!(lower < upper);
                     assert!(lower >= Self::zero());
                     assert!(upper > Self::zero());
                     let range_size = upper - lower /*+ Self::one()*/;
-                    if self < lower {
-                        self += range_size * ((lower-self)/range_size + Self::one());
+                    // Work on remainders only: every intermediate value stays within
+                    // (-range_size, range_size), so nothing overflows, whatever `self` is.
+                    let mut a = self % range_size;
+                    if a < Self::zero() {
+                        a += range_size;
                     }
-                    lower + (self - lower) % range_size
+                    let b = lower % range_size;
+                    lower + if a >= b { a - b } else { range_size - (b - a) }
                 }
                 fn wrapped(self, upper: Self) -> Self {
                     assert!(upper > Self::zero());
